@@ -112,6 +112,18 @@ def verdict_clauses(expected: List[list], recorded: List[list], prog: dict) -> L
     return res
 
 
+def _verdict_extra_props(expected: List[list], recorded: List[list], clause: str) -> set:
+    """A configured error (class / instance / factory result) was due and the caller got a plain return: C09 as well."""
+    if clause not in ("pre.body_entered_while_effpre_false", "post.skipped_on_return", "inv.missing_after"):
+        return set()
+    for se, sr in zip(_segments(expected), _segments(recorded)):
+        if se["ret"] is None or sr["ret"] is None:
+            break
+        if se["ret"] != sr["ret"] or se["body"] != sr["body"]:
+            return {"C09"} if se["ret"][0] in ("ErrClass", "ErrInst", "ErrFact") and sr["ret"][0] == "ret" else set()
+    return set()
+
+
 def _mask_ip(log: List[list]) -> List[list]:
     return [ev[:9] + [[-1]] for ev in log]
 
@@ -130,7 +142,7 @@ def diagnose(res: CheckResult, name: str, mism: List[dict], cur: Dict[str, bool]
         if it.get("expected"):
             for clause, what in verdict_clauses(it["expected"], it["log"], it["prog"])[:1]:
                 from icv.attribute import CLAUSES
-                props = CLAUSES.get(clause, set())
+                props = set(CLAUSES.get(clause, set())) | _verdict_extra_props(it["expected"], it["log"], clause)
                 what = "family {}: {} (program {})".format(name, what, it["pid"])
                 if res.prop in props:
                     res.violation(clause, what, {"signature": clause, "unit": name, "program": it["prog"],
